@@ -30,7 +30,14 @@ macro_rules! imple_hook_data_env {
 	($t: ty) => {
 		impl HookEnvData for $t {
 			fn set_env(&mut self, env: &HashMap<String, String>) {
-				for (key, value) in env::vars().chain(env.iter().map(deref)) {
+				// The daemon's own environment is the bottom layer: it must not be laid
+				// again over what a previous (less specific) call has already set.
+				if self.env.is_empty() {
+					for (key, value) in env::vars() {
+						self.env.insert(key, value);
+					}
+				}
+				for (key, value) in env.iter().map(deref) {
 					self.env.insert(key, value);
 				}
 			}
